@@ -113,12 +113,12 @@ static int table_insert(uint64_t *t, uint64_t mask, uint64_t key, uint64_t *coun
 			uint64_t exp = 0;
 			if (__atomic_compare_exchange_n(&t[i], &exp, key, 0, __ATOMIC_RELAXED, __ATOMIC_RELAXED)) {
 				uint64_t c = __atomic_add_fetch(counter, 1, __ATOMIC_RELAXED);
-				if (c > (mask >> 1) + (mask >> 2)) S->table_full = 1;
+				if (c > (mask >> 1) + (mask >> 2)) { S->table_full = 1; S->stop = 1; }    /* 3/4 full: the exploration ends here (reported, not exhaustive) */
 				return 1;
 			}
 			if (exp == key) return 0;
 		}
-		if (++probes > mask) { S->table_full = 1; return 0; }
+		if (++probes > mask) { S->table_full = 1; S->stop = 1; return 1; }             /* never answer 'seen before' on a guess */
 	}
 }
 
@@ -650,7 +650,7 @@ int vp_main(int argc, char **argv, const struct vp_harness *h)
 			snprintf(S->broken_msg, sizeof S->broken_msg, "worker died (status 0x%x)", st);
 		}
 	}
-	if (S->table_full) { S->broken = 1; snprintf(S->broken_msg, sizeof S->broken_msg, "state/outcome table too full"); }
+	if (S->table_full) fprintf(stderr, "%s: the state table (2^%d entries) filled up: exploration cut there, exhaustive=false\n", H->name, (int)st_bits);
 
 	/* confirm violations by replaying twice, write replay files */
 	fflush(NULL);
